@@ -17,6 +17,8 @@
    header met was the minimal form for its size, nothing was truncated, every boolean
    octet was 0/1 and every sequence ended exactly at its declared end.  [PErr] = the code
    raises; [PFuel] = out of fuel (excluded by the theorems: fuel > length d suffices).
+   A child element that ends beyond the declared end of its SEQUENCE / ALTERNATIVE makes
+   _list_from_bytes raise (InvalidPacketError, as after fixes/D17b.patch of property C17).
    [depth] is max_depth - self.depth. *)
 From Coq Require Import ZArith List Bool.
 From BV Require Import Base.Bytes Model.CodecsBase.
@@ -218,6 +220,8 @@ Fixpoint parse_next (fuel : nat) (depth : nat) (d : list Z) : presult :=
                                   | S k' =>
                                       match parse_next k dep d with
                                       | POk e c _ cn =>
+                                          if budget - c <? 0 then LErr   (* element ends beyond its container *)
+                                          else
                                           match parse_list k' (dropZ c d) (budget - c) with
                                           | LOk l used cn' => LOk (e :: l) (c + used) (cn && cn')
                                           | LErr => LErr
@@ -248,6 +252,8 @@ Fixpoint parse_list (pn : nat) (dep : nat) (fuel : nat) (d : list Z) (budget : Z
        | S k' =>
            match parse_next pn dep d with
            | POk e c _ cn =>
+               if budget - c <? 0 then LErr
+               else
                match parse_list pn dep k' (dropZ c d) (budget - c) with
                | LOk l used cn' => LOk (e :: l) (c + used) (cn && cn')
                | LErr => LErr
